@@ -196,7 +196,10 @@ func (f *structField) LocateParams(typeToValue TypeToValue) (*Params, error) {
 	var argType reflect.Type
 	var vals []any
 	if s, ok := typeToValue[f.structType]; ok {
-		val := s.FieldByIndex(f.index)
+		val, err := f.fieldOf(s)
+		if err != nil {
+			return nil, err
+		}
 		if val.IsZero() && f.omitEmpty {
 			omit = true
 		}
@@ -219,7 +222,10 @@ func (f *structField) LocateParams(typeToValue TypeToValue) (*Params, error) {
 			}
 			// The slice has the correct type so there is no need to check the
 			// type of each element.
-			val := s.FieldByIndex(f.index)
+			val, err := f.fieldOf(s)
+			if err != nil {
+				return nil, err
+			}
 			if f.omitEmpty {
 				// If the omitemtpy flag is present, we expect either all rows to
 				// have a zero value, or all have a none zero value. If we have a
@@ -236,6 +242,17 @@ func (f *structField) LocateParams(typeToValue TypeToValue) (*Params, error) {
 		return newParams(vals, omit, true, argType), nil
 	}
 	return nil, valueNotFoundError(typeToValue, f.structType)
+}
+
+// fieldOf returns the value of the field in the struct s. The field can be
+// located in an embedded struct pointer, if that pointer is nil an error is
+// returned.
+func (f *structField) fieldOf(s reflect.Value) (reflect.Value, error) {
+	val, err := s.FieldByIndexErr(f.index)
+	if err != nil {
+		return reflect.Value{}, fmt.Errorf("cannot access %s: nil pointer to embedded struct", f.Desc())
+	}
+	return val, nil
 }
 
 // Desc returns a natural language description of the struct field for use in
@@ -259,7 +276,10 @@ func (f *structField) LocateScanTarget(typeToValue TypeToValue) (any, *ScanProxy
 	if !ok {
 		return nil, nil, valueNotFoundError(typeToValue, f.structType)
 	}
-	val := s.FieldByIndex(f.index)
+	val, err := f.fieldOf(s)
+	if err != nil {
+		return nil, nil, err
+	}
 	if !val.CanSet() {
 		return nil, nil, fmt.Errorf("internal error: cannot set field %s of struct %s", f.name, f.structType.Name())
 	}
